@@ -94,6 +94,15 @@ theorem ll_treeCheck_ok (T : LLTables) (o : Opts) (fuel : Nat) (toks : List MTok
     (by simpa using hleaves)
   simpa using this
 
+/-- The same with the two table hypotheses in their decidable form, as the checks evaluate them on
+    every generated table (`tablesSoundB`, `noMarkersB`). -/
+theorem ll_treeCheck_ok_checked (T : LLTables) (o : Opts) (fuel : Nat) (toks : List MTok)
+    (h1 : tablesSoundB T = true) (h2 : noMarkersB T = true)
+    (htrim : o.trim = false) (hid : toks.map (·.id) = List.range toks.length)
+    (h : (llRun T o fuel toks).res = .ok) :
+    llTreeCheck T toks (llRun T o fuel toks).actions (llRun T o fuel toks).tree = none :=
+  ll_treeCheck_ok T o fuel toks (tablesSoundB_sound T h1) (noMarkersB_sound T h2) htrim hid h
+
 /-- The handler `ll-tree-check`, with the functions it passes to `treeCheck` written out. -/
 theorem handleLLTreeCheck_unfold (st ps ds toks acts tree : String) :
     handleLLTreeCheck [st, ps, ds, toks, acts, tree] = (do
